@@ -930,6 +930,27 @@ func registerJSON(reg func(names string, f intrinsicFn)) {
 		data, _ := args[0].([]value)
 		return fr.m.jsonUnmarshal(fr, data, args[1].(iface))
 	})
+	// Decoder.Decode: the whole reader is read and must hold exactly one JSON value (streams of several values
+	// are outside the model)
+	reg("(*encoding/json.Decoder).Decode", func(fr *frame, args []value) value {
+		dec := args[0].(*value)
+		dt := mustDeref(fr.fn.Signature.Recv().Type())
+		r := (*dec).(structure)[structFieldIndex(dt, "r")].(iface)
+		ioPkg := fr.m.prog.prog.ImportedPackage("io")
+		if ioPkg == nil || ioPkg.Func("ReadAll") == nil {
+			unsupported("encoding/json model: io.ReadAll not available")
+		}
+		res := fr.m.callSSA(fr, token.NoPos, ioPkg.Func("ReadAll"), []value{r}, nil).(tuple)
+		if e, _ := res[1].(iface); e.t != nil {
+			return e
+		}
+		data, _ := res[0].([]value)
+		if len(data) == 0 {
+			eof := ioPkg.Var("EOF")
+			return *fr.m.global(eof)
+		}
+		return fr.m.jsonUnmarshal(fr, data, args[1].(iface))
+	})
 	reg("encoding/json.Valid", func(fr *frame, args []value) value {
 		data, _ := args[0].([]value)
 		cb, ok := concreteBytes(data)
